@@ -48,8 +48,7 @@ class PROP(Prop):
 
     def static_checks(self, w):
         mod = extract.load(GB)
-        serve = mod.func("WorkerGateway.serve")
-        src = ast.unparse(serve)
+        src = extract.flat_src(mod, "WorkerGateway.serve")
         out = [
             ("static/serve/hasprimary-for-thread-and-main_thread_only", "hasprimary = self.execmodel.backend in ('thread', 'main_thread_only')" in src, "hasprimary"),
             ("static/serve/pool-created-with-hasprimary", "self._execpool = WorkerPool(self.execmodel, hasprimary=hasprimary)" in src, "pool"),
